@@ -66,6 +66,18 @@ def mesh_any(nmin=2, nmax=40):
     return st.one_of(mesh_uniform(nmin, nmax), mesh_faces(nmin, nmax), mesh_morph(nmin, nmax), mesh_refined(max(nmin, 2), nmax))
 
 
+def mesh_big():
+    """occasional large meshes for operator-level checks (size-dependent fast paths, chunking)"""
+    n = st.sampled_from([129, 300, 1025])
+    return st.one_of(st.builds(lambda n, L, x0: dict(kind="uni", n=n, length=L, x0=x0), n, logf(-2, 2), st.one_of(st.just(0.0), f(-10, 10))),
+                     st.builds(lambda n, L, a: dict(kind="morph", n=n, length=L, x0=0.0, law="sine", param=a), n, logf(-2, 2), f(-0.9, 0.9)),
+                     st.builds(lambda n, L, r: dict(kind="refined", n=n, length=L, ratio=r, a=1, b=2), n, logf(-2, 2), logf(-1, 1)))
+
+
+def mesh_any_or_big(nmin=2, nmax=40, weight=8):
+    return st.one_of(*([mesh_any(nmin, nmax)] * weight + [mesh_big()]))
+
+
 def mesh2d(nmin=1, nmax=8):
     return st.builds(lambda nx, ny, lx, ly: dict(nx=nx, ny=ny, lx=lx, ly=ly),
                      st.integers(nmin, nmax), st.integers(nmin, nmax), logf(-1, 1), logf(-1, 1))
